@@ -44,10 +44,45 @@ pub fn row_facts(tables: &Tables, stmt: &AggregateStatement, lines: &[String]) -
 
 pub struct Mismatch { pub what: String, pub detail: String, pub agg_index: Option<usize> }
 
+/// Is there an order-preserving assignment of the printed rows to the expected groups in which only optional groups
+/// (HAVING undecidable) and groups of the recorded class "no aggregate has a value" are left without a row?
+/// Returns the indices of the skipped groups of that class. Needed because rows need not show their key.
+fn align(exp: &[ExpGroup], got: &eng::RowsOut, ncol: usize) -> Option<Vec<usize>> {
+    let fits = |g: &ExpGroup, r: &Vec<RV>| r.len() == ncol && r.iter().zip(g.cells.iter()).all(|(v, c)| c.admits(&crate::sem::Outcome::Val(v.clone())));
+    // memo[i][j]: can exp[i..] be aligned with rows[j..]? (None = not computed)
+    let (n, m) = (exp.len(), got.rows.len());
+    let mut memo: Vec<Vec<Option<bool>>> = vec![vec![None; m + 1]; n + 1];
+    fn go(i: usize, j: usize, exp: &[ExpGroup], rows: &[Vec<RV>], memo: &mut Vec<Vec<Option<bool>>>, fits: &dyn Fn(&ExpGroup, &Vec<RV>) -> bool) -> bool {
+        if let Some(v) = memo[i][j] { return v; }
+        let r = if i == exp.len() { j == rows.len() } else {
+            let g = &exp[i];
+            let skippable = g.keep != Keep::Yes || g.no_aggregate_has_a_value;
+            (g.keep != Keep::No && j < rows.len() && fits(g, &rows[j]) && go(i + 1, j + 1, exp, rows, memo, fits)) || (skippable && go(i + 1, j, exp, rows, memo, fits))
+        };
+        memo[i][j] = Some(r);
+        r
+    }
+    if !go(0, 0, exp, &got.rows, &mut memo, &fits) { return None; }
+    // walk one successful alignment, preferring to give a row to every group
+    let (mut i, mut j, mut skipped) = (0, 0, Vec::new());
+    while i < n {
+        let g = &exp[i];
+        if g.keep != Keep::No && j < m && fits(g, &got.rows[j]) && go(i + 1, j + 1, exp, &got.rows, &mut memo, &fits) { i += 1; j += 1; }
+        else { if g.keep == Keep::Yes && g.no_aggregate_has_a_value { skipped.push(i); } i += 1; }
+    }
+    Some(skipped)
+}
+
 /// compares the engine's table with the expectation; returns the first mismatches
 pub fn compare_table(stmt: &AggregateStatement, exp: &[ExpGroup], got: &eng::RowsOut) -> Vec<Mismatch> {
     let mut out = Vec::new();
     let ncol = stmt.aggregates.len();
+    if let Some(skipped) = align(exp, got, ncol) {
+        let names: Vec<String> = stmt.aggregates.iter().map(|a| a.name.clone()).collect();
+        if !got.rows.is_empty() && got.columns != names { out.push(Mismatch { what: "column-names".into(), detail: format!("columns {:?}, statement says {:?}", got.columns, names), agg_index: None }); }
+        for i in skipped { out.push(Mismatch { what: "missing-group|no-aggregate-has-a-value".into(), detail: format!("group {} ({} rows) has no row in the result ({} rows printed)", show_row(&exp[i].key), exp[i].rows, got.rows.len()), agg_index: None }); }
+        return out;
+    }
     let names: Vec<String> = stmt.aggregates.iter().map(|a| a.name.clone()).collect();
     if !got.rows.is_empty() && got.columns != names { out.push(Mismatch { what: "column-names".into(), detail: format!("columns {:?}, statement says {:?}", got.columns, names), agg_index: None }); }
     let mut gi = 0;
